@@ -100,7 +100,7 @@ def worker_init():
         sys.setrecursionlimit(2100)
     if not getattr(P, "_c12_wrapped", False):
         # counting wrappers only: behaviour is unchanged unless a budget set by `_bounded` runs out
-        orig_pop, orig_stack = P.pop_stack_sort, P._stack_sort
+        orig_pop, orig_stack = P.pop_stack_sort, getattr(P, "_stack_sort", None)
 
         def pop_stack_sort(self):
             _tick(0)
@@ -110,7 +110,8 @@ def worker_init():
             _tick(1)
             return orig_stack(perm_slice)
         P.pop_stack_sort = pop_stack_sort
-        P._stack_sort = staticmethod(_stack_sort)
+        if orig_stack is not None:        # private recursive helper of the stack-sort family, when it exists
+            P._stack_sort = staticmethod(_stack_sort)
         P._c12_wrapped = True
 
 
@@ -874,6 +875,17 @@ FAM_OPS = ["fam." + k for k in _FAMS]
 def run(ctx):
     rng = ctx.rng
     quick = ctx.tier == "quick"
+    # `yt` lines look at the tableau built by the PRIVATE helper perm_properties._perm_to_yt (the public observables
+    # are yt_perm_avoids_22/_32, ops fam.yt22 / fam.yt32): they are only run while that helper exists under this name
+    try:
+        from permuta.bisc import perm_properties as _pp
+        has_yt = hasattr(_pp, "_perm_to_yt")
+    except Exception:  # pylint: disable=broad-except
+        has_yt = True
+    if not has_yt:
+        _cmp = ctx.compare
+        ctx.compare = lambda stream, lines, *a, **kw: _cmp(stream, [ln for ln in lines if not ln.startswith("yt ")], *a, **kw)
+        ctx.notes.append("yt lines skipped: perm_properties._perm_to_yt (a private helper) does not exist in this tree")
     N_each = 7                      # every op separately up to here
     N_all = 8                       # bundled line (all 12 observables) for the top length
     N_fam_each = 6
